@@ -664,7 +664,28 @@ func (f *Frame) envAtWith(b *ssa.BasicBlock, st *State) *Env {
 		env.vars[ai.a.Comment] = f.tr.load(st, pt, ai.ref)
 		env.vars["addr_"+ai.a.Comment] = Val{K: VRef, T: ai.ref, Typ: ai.a.Type()}
 	}
+	// a variable assigned exactly once that is not in scope at b (sibling block of the same loop iteration): its value
+	// on the paths through the assignment, arbitrary elsewhere
+	for n, x := range singleDefsOf(f.fn) {
+		if _, taken := env.vars[n]; taken {
+			continue
+		}
+		if v, ok := f.vals[x]; ok {
+			env.vars[n] = v
+		}
+	}
 	return env
+}
+
+var singleDefCache = map[*ssa.Function]map[string]ssa.Value{}
+
+func singleDefsOf(fn *ssa.Function) map[string]ssa.Value {
+	if m, ok := singleDefCache[fn]; ok {
+		return m
+	}
+	m := localSingleDefs(fn)
+	singleDefCache[fn] = m
+	return m
 }
 
 var _ = constant.MakeBool
